@@ -16,7 +16,7 @@ ASSUMPTIONS = ['stories have a storyID and items an itemID; durations / times th
                'stories with or without timing metadata']
 
 TIMES = ['2020-01-01T10:00:00', '2021-06-30 23:59:59', '2020-01-01T10:00:00+01:00', '1 Jan 2020 10:00', None]
-DURS = ['0', '1', '2.5', '10.125', '0.0', '3600', '7.875', '100.25']
+DURS = ['0', '1', '2.5', '10.125', '0.0', '3600', '7.875', '100.25', '0.1', '0.2', '12.34', '59.999999', '0.000001', '1e2', ' 7.3 ', '1799.99']
 
 
 def rich_story(rng, sid, timing=None):
@@ -390,7 +390,7 @@ def well_formed(rc):
         if pl is not None:
             for t in ('StoryDuration', 'TextTime', 'MediaTime'):
                 e = pl.find(t)
-                if e is not None and (e.text is None or impl.num_ticks(e.text) is None):
+                if e is not None and (e.text is None or impl.num_us(e.text) is None):
                     return False
             for t in ('StoryStarted', 'StoryEnded'):
                 e = pl.find(t)
